@@ -12,7 +12,7 @@ CONSTANTS
   Queries = {"S1", "S2", "B", "T", "T2"}
   MuteQueries = {"B", "T"}
   StartModes = {"same"}
-  EndOffs = {1, 2, 3}
+  EndOffs = {1, 3}
   Timeouts = {TRUE}
   QueueBound = 0
 VIEW View
